@@ -5,9 +5,13 @@ import json, os, re, shutil, subprocess, sys, glob
 V = "/verif"
 want = set(sys.argv[1:])
 rows = []
-for d in sorted(glob.glob("/tmp/seed/out-C*/[ab]")):
+# second round (after the repairs): /tmp/seed2/out-Cxx/{a,b} are filed as Cxx-c, Cxx-d
+for d in sorted(glob.glob("/tmp/seed/out-C*/[ab]")) + sorted(glob.glob("/tmp/seed2/out-C*/[ab]")):
     prop = re.search(r"out-(C\d+)", d).group(1)
-    sid = "%s-%s" % (prop, os.path.basename(d))
+    letter = os.path.basename(d)
+    if d.startswith("/tmp/seed2/"):
+        letter = {"a": "c", "b": "d"}[letter]
+    sid = "%s-%s" % (prop, letter)
     if want and sid not in want and prop not in want:
         continue
     if not os.path.exists(os.path.join(d, "patch.diff")):
